@@ -234,6 +234,9 @@ pub struct Scen {
     pub cs: CertState,
     /// names of the mutators applied so far
     pub trail: Vec<String>,
+    /// Shelley-MA, rule level only: deposit counters handed to check_preservation_of_value instead of
+    /// the ones check_certificates computes (they are a function of the number of certificates)
+    pub counts: Option<(u64, u64, u64)>,
 }
 
 fn map_u(raw: &[u8]) -> Option<Vec<(u64, Vec<u8>)>> {
@@ -254,7 +257,7 @@ pub fn lift(tx: AnyTx, utxos: &UTxOs, env: &Environment, cs: &CertState) -> Scen
         acnt: env.acnt.as_ref().map(|a| (a.treasury, a.reserves)),
     };
     let mut s = Scen { fam: Fam::Byron, body: vec![], wits: vec![], valid: true, aux: None, btx: None, bwits: vec![],
-                       utxo, env: envs, cs: cs.clone(), trail: vec![] };
+                       utxo, env: envs, cs: cs.clone(), trail: vec![], counts: None };
     let bytes: Vec<u8>;
     match tx {
         AnyTx::Byron(p) => {
@@ -452,8 +455,8 @@ pub fn scen_text(s: &Scen, fixture: &str) -> String {
     } else { hx(&s.tx_bytes()) };
     let utxo = s.utxo.iter().map(|e| format!("{}#{}:{}:{}:{}", hx(&e.hash), e.ix, era_name(e.era), if e.byron_key { 1 } else { 0 }, hx(&e.out))).collect::<Vec<_>>().join(",");
     let pp = pp_fields(&s.env.pp).iter().map(|(k, v)| format!("{}={}", k, v)).collect::<Vec<_>>().join(";");
-    format!("SCEN fixture={} tx={} utxo={} slot={} netid={} magic={} acnt={} pp={}", fixture, tx, utxo, s.env.slot, s.env.netid, s.env.magic,
-            s.env.acnt.map(|(a, b)| format!("{}/{}", a, b)).unwrap_or("none".into()), pp)
+    format!("SCEN fixture={} tx={} utxo={} slot={} netid={} magic={} acnt={} pp={} counts={}", fixture, tx, utxo, s.env.slot, s.env.netid, s.env.magic,
+            s.env.acnt.map(|(a, b)| format!("{}/{}", a, b)).unwrap_or("none".into()), pp, s.counts.map(|(a, b, c)| format!("{}/{}/{}", a, b, c)).unwrap_or("none".into()))
 }
 pub fn scen_parse(line: &str, base: &[(&'static str, Scen)], clone: &dyn Fn(&Scen) -> Scen) -> Option<(&'static str, Scen)> {
     let start = line.find("SCEN fixture=")?;
@@ -488,10 +491,11 @@ pub fn scen_parse(line: &str, base: &[(&'static str, Scen)], clone: &dyn Fn(&Sce
     s.env.slot = kv.get("slot")?.parse().ok()?; s.env.netid = kv.get("netid")?.parse().ok()?; s.env.magic = kv.get("magic")?.parse().ok()?;
     let ac = kv.get("acnt")?;
     s.env.acnt = if ac == "none" { None } else { let (a, b) = ac.split_once('/')?; Some((a.parse().ok()?, b.parse().ok()?)) };
+    if let Some(c) = kv.get("counts") { if c != "none" { let v: Vec<u64> = c.split('/').filter_map(|x| x.parse().ok()).collect(); if v.len() == 3 { s.counts = Some((v[0], v[1], v[2])) } } }
     if let Some(pp) = kv.get("pp") { for f in pp.split(';') { if let Some((k, v)) = f.split_once('=') { pp_set(&mut s.env.pp, k, v.parse().ok()?) } } }
     Some((bn, s))
 }
 pub fn clone_scen(b: &Scen) -> Scen {
     Scen { fam: b.fam, body: b.body.clone(), wits: b.wits.clone(), valid: b.valid, aux: b.aux.clone(), btx: b.btx.clone(), bwits: b.bwits.clone(),
-           utxo: b.utxo.clone(), env: EnvSpec { pp: b.env.pp.clone(), magic: b.env.magic, slot: b.env.slot, netid: b.env.netid, acnt: b.env.acnt }, cs: b.cs.clone(), trail: vec![] }
+           utxo: b.utxo.clone(), env: EnvSpec { pp: b.env.pp.clone(), magic: b.env.magic, slot: b.env.slot, netid: b.env.netid, acnt: b.env.acnt }, cs: b.cs.clone(), trail: vec![], counts: b.counts }
 }
